@@ -27,12 +27,12 @@ A2 = ('Arc2S', 'Arc2D')
 A3 = ('Arc3S', 'Arc3D')
 
 
-def p(name, t):
-    return (name, t[0], t[1])
+def p(name, t, hint=None):
+    return (name, t[0], t[1], hint)
 
 
-def S(name):
-    return (name, 'S', None)
+def S(name, hint=None):
+    return (name, 'S', None, hint)
 
 
 # ------------------------------------------------------------------ 2D intersections
@@ -55,6 +55,274 @@ for (ka, ta) in _kinds2:
     K('closest_point2d_on_line2d_infinite_' + ka,
       'intersection2d.closest_point2d_on_line2d_infinite',
       [p('q', P2), p('l', ta)], 'V2', 'Isect2', ['C12'])
+
+
+
+# ------------------------------------------------------------------ vectors & points
+PV2 = 'geometry2d.pointvector'
+PV3 = 'geometry3d.pointvector'
+K('v2_dot', PV2 + ':Vector2D.dot', [p('a', W2), p('b', W2)], 'S', 'Vec', ['C02', 'C16'])
+K('v2_determinant', PV2 + ':Vector2D.determinant', [p('a', W2), p('b', W2)], 'S', 'Vec',
+  ['C02', 'C01'])
+K('v2_cross', PV2 + ':Vector2D.cross', [p('a', W2)], 'V2', 'Vec', ['C02'])
+K('v2_magnitude_squared', PV2 + ':Vector2D.magnitude_squared', [p('a', W2)], 'S', 'Vec',
+  ['C02'])
+K('v2_magnitude', PV2 + ':Vector2D.magnitude', [p('a', W2)], 'S', 'Vec', ['C02'])
+K('v2_normalize', PV2 + ':Vector2D.normalize', [p('a', W2)], 'V2', 'Vec', ['C02', 'C06'])
+K('v2_reverse', PV2 + ':Vector2D.reverse', [p('a', W2)], 'V2', 'Vec', ['C02'])
+K('v2_rotate', PV2 + ':Vector2D.rotate', [p('a', W2), S('angle', 'angle')], 'V2', 'Vec', ['C02'])
+K('v2_reflect', PV2 + ':Vector2D.reflect', [p('a', W2), p('n', W2, 'unit')], 'V2', 'Vec', ['C02'])
+K('v2_is_zero', PV2 + ':Vector2D.is_zero', [p('a', W2), S('tol', 'tol')], 'B', 'Vec', ['C02'])
+K('v2_is_equivalent', PV2 + ':Vector2D.is_equivalent', [p('a', W2), p('b', W2), S('tol', 'tol')],
+  'B', 'Vec', ['C13'])
+K('v2_angle_counterclockwise', PV2 + ':Vector2D.angle_counterclockwise',
+  [p('a', W2), p('b', W2)], 'S', 'Vec', ['C17'], tol_factor=1000)
+K('p2_move', PV2 + ':Point2D.move', [p('a', P2), p('mv', W2)], 'V2', 'Vec', ['C02'])
+K('p2_rotate', PV2 + ':Point2D.rotate', [p('a', P2), S('angle', 'angle'), p('o', P2)], 'V2', 'Vec',
+  ['C02'])
+K('p2_reflect', PV2 + ':Point2D.reflect', [p('a', P2), p('n', W2, 'unit'), p('o', P2)], 'V2',
+  'Vec', ['C02'])
+K('p2_scale', PV2 + ':Point2D.scale', [p('a', P2), S('factor', 'factor'), p('o', P2)], 'V2', 'Vec',
+  ['C02'])
+K('p2_scale_world', PV2 + ':Point2D.scale', [p('a', P2), S('factor', 'factor')], 'V2', 'Vec',
+  ['C02'])
+K('p2_distance_to_point', PV2 + ':Point2D.distance_to_point', [p('a', P2), p('b', P2)],
+  'S', 'Vec', ['C12'])
+
+K('v3_dot', PV3 + ':Vector3D.dot', [p('a', W3), p('b', W3)], 'S', 'Vec', ['C02', 'C16'])
+K('v3_cross', PV3 + ':Vector3D.cross', [p('a', W3), p('b', W3)], 'V3', 'Vec',
+  ['C02', 'C06'])
+K('v3_magnitude_squared', PV3 + ':Vector3D.magnitude_squared', [p('a', W3)], 'S', 'Vec',
+  ['C02'])
+K('v3_magnitude', PV3 + ':Vector3D.magnitude', [p('a', W3)], 'S', 'Vec', ['C02'])
+K('v3_normalize', PV3 + ':Vector3D.normalize', [p('a', W3)], 'V3', 'Vec', ['C02', 'C06'])
+K('v3_reverse', PV3 + ':Vector3D.reverse', [p('a', W3)], 'V3', 'Vec', ['C02'])
+K('v3_rotate', PV3 + ':Vector3D.rotate', [p('a', W3), p('axis', W3, 'nonzero'), S('angle', 'angle')], 'V3',
+  'Vec', ['C02'])
+K('v3_rotate_xy', PV3 + ':Vector3D.rotate_xy', [p('a', W3), S('angle', 'angle')], 'V3', 'Vec',
+  ['C02'])
+K('v3_reflect', PV3 + ':Vector3D.reflect', [p('a', W3), p('n', W3, 'unit')], 'V3', 'Vec', ['C02'])
+K('v3_project', PV3 + ':Vector3D.project', [p('a', W3), p('n', W3)], 'V3', 'Vec', ['C02'])
+K('v3_is_equivalent', PV3 + ':Vector3D.is_equivalent', [p('a', W3), p('b', W3), S('tol', 'tol')],
+  'B', 'Vec', ['C13'])
+K('p3_move', PV3 + ':Point3D.move', [p('a', P3), p('mv', W3)], 'V3', 'Vec', ['C02'])
+K('p3_rotate', PV3 + ':Point3D.rotate', [p('a', P3), p('axis', W3, 'nonzero'), S('angle', 'angle'), p('o', P3)],
+  'V3', 'Vec', ['C02'])
+K('p3_rotate_xy', PV3 + ':Point3D.rotate_xy', [p('a', P3), S('angle', 'angle'), p('o', P3)], 'V3',
+  'Vec', ['C02'])
+K('p3_reflect', PV3 + ':Point3D.reflect', [p('a', P3), p('n', W3, 'unit'), p('o', P3)], 'V3',
+  'Vec', ['C02'])
+K('p3_scale', PV3 + ':Point3D.scale', [p('a', P3), S('factor', 'factor'), p('o', P3)], 'V3', 'Vec',
+  ['C02'])
+K('p3_scale_world', PV3 + ':Point3D.scale', [p('a', P3), S('factor', 'factor')], 'V3', 'Vec',
+  ['C02'])
+K('p3_project', PV3 + ':Point3D.project', [p('a', P3), p('n', W3), p('o', P3)], 'V3',
+  'Vec', ['C02', 'C12'])
+K('p3_distance_to_point', PV3 + ':Point3D.distance_to_point', [p('a', P3), p('b', P3)],
+  'S', 'Vec', ['C12'])
+
+# ------------------------------------------------------------------ plane
+PLN = 'geometry3d.plane'
+K('plane_init', PLN + ':Plane.__init__', [p('n', W3), p('o', P3)], 'PlaneS', 'Plane',
+  ['C06'], ctor=True)
+K('plane_init_x', PLN + ':Plane.__init__', [p('n', W3), p('o', P3), p('x', W3)], 'PlaneS',
+  'Plane', ['C06'], ctor=True)
+K('plane_xyz_to_xy', PLN + ':Plane.xyz_to_xy', [p('pl', PL), p('q', P3)], 'V2', 'Plane',
+  ['C06', 'C09', 'C16'])
+K('plane_xy_to_xyz', PLN + ':Plane.xy_to_xyz', [p('pl', PL), p('q', P2)], 'V3', 'Plane',
+  ['C06', 'C09', 'C16'])
+K('plane_flip', PLN + ':Plane.flip', [p('pl', PL)], 'PlaneS', 'Plane', ['C06', 'C02'])
+K('plane_move', PLN + ':Plane.move', [p('pl', PL), p('mv', W3)], 'PlaneS', 'Plane', ['C02'])
+K('plane_rotate', PLN + ':Plane.rotate', [p('pl', PL), p('axis', W3, 'nonzero'), S('angle', 'angle'), p('o', P3)],
+  'PlaneS', 'Plane', ['C02'])
+K('plane_rotate_xy', PLN + ':Plane.rotate_xy', [p('pl', PL), S('angle', 'angle'), p('o', P3)],
+  'PlaneS', 'Plane', ['C02'])
+K('plane_reflect', PLN + ':Plane.reflect', [p('pl', PL), p('n', W3, 'unit'), p('o', P3)],
+  'PlaneS', 'Plane', ['C02'])
+K('plane_scale', PLN + ':Plane.scale', [p('pl', PL), S('factor', 'factor'), p('o', P3)], 'PlaneS',
+  'Plane', ['C02'])
+K('plane_is_point_above', PLN + ':Plane.is_point_above', [p('pl', PL), p('q', P3)], 'B',
+  'Plane', ['C07'])
+K('plane_closest_point', PLN + ':Plane.closest_point', [p('pl', PL), p('q', P3)], 'V3',
+  'Plane', ['C12'])
+K('plane_distance_to_point', PLN + ':Plane.distance_to_point', [p('pl', PL), p('q', P3)],
+  'S', 'Plane', ['C12'])
+K('plane_project_point', PLN + ':Plane.project_point', [p('pl', PL), p('q', P3)], 'Opt V3',
+  'Plane', ['C12'])
+K('plane_is_coplanar', PLN + ':Plane.is_coplanar', [p('pl', PL), p('pl2', PL)], 'B',
+  'Plane', ['C09'])
+
+# ------------------------------------------------------------------ 3D intersections
+I3 = 'intersection3d'
+for (ka, ta) in [('s', SEG3), ('r', RAY3)]:
+    K('intersect_line3d_plane_' + ka, I3 + '.intersect_line3d_plane',
+      [p('l', ta), p('pl', PL)], 'Opt V3', 'Isect3', ['C11'])
+    K('intersect_line3d_plane_infinite_' + ka, I3 + '.intersect_line3d_plane_infinite',
+      [p('l', ta), p('pl', PL)], 'Opt V3', 'Isect3', ['C11'])
+    K('closest_point3d_on_line3d_' + ka, I3 + '.closest_point3d_on_line3d',
+      [p('q', P3), p('l', ta)], 'V3', 'Isect3', ['C12'])
+    K('closest_point3d_on_line3d_infinite_' + ka, I3 + '.closest_point3d_on_line3d_infinite',
+      [p('q', P3), p('l', ta)], 'V3', 'Isect3', ['C12'])
+    K('closest_point3d_between_line3d_plane_' + ka,
+      I3 + '.closest_point3d_between_line3d_plane', [p('l', ta), p('pl', PL)],
+      'Opt (Tup V3 V3)', 'Isect3', ['C12'])
+    K('intersect_line3d_sphere_' + ka, I3 + '.intersect_line3d_sphere',
+      [p('l', ta), ('sp', 'SphereS', 'Sphere')], 'PtList V3', 'Isect3', ['C11'])
+K('intersect_plane_plane', I3 + '.intersect_plane_plane', [p('pa', PL), p('pb', PL)],
+  'Opt (Tup V3 V3)', 'Isect3', ['C11'])
+K('closest_point3d_on_plane', I3 + '.closest_point3d_on_plane', [p('q', P3), p('pl', PL)],
+  'V3', 'Isect3', ['C12'])
+K('intersect_plane_sphere', I3 + '.intersect_plane_sphere',
+  [p('pl', PL), ('sp', 'SphereS', 'Sphere')], 'Opt (Sum (Tup V3 V3 S) V3)', 'Isect3', ['C11'])
+
+
+
+# ------------------------------------------------------------------ segments and rays
+SPH = ('SphereS', 'Sphere')
+CON = ('ConeS', 'Cone')
+CYL = ('CylS', 'Cylinder')
+for (dim, mod1d, modl, modr, TS, TR, TP, TW, lr) in [
+        ('2', 'geometry2d._1d', 'geometry2d.line', 'geometry2d.ray', SEG2, RAY2, P2, W2, 'LR2'),
+        ('3', 'geometry3d._1d', 'geometry3d.line', 'geometry3d.ray', SEG3, RAY3, P3, W3, 'LR3')]:
+    vt = 'V' + dim
+    scls = 'LineSegment%sD' % dim
+    rcls = 'Ray%sD' % dim
+    K('seg%s_min' % dim, modl + ':%s.min' % scls, [p('l', TS)], vt, 'Line', ['C10'])
+    K('seg%s_max' % dim, modl + ':%s.max' % scls, [p('l', TS)], vt, 'Line', ['C10'])
+    K('seg%s_center' % dim, modl + ':%s.center' % scls, [p('l', TS)], vt, 'Line', ['C10'])
+    K('ray%s_min' % dim, modr + ':%s.min' % rcls, [p('l', TR)], vt, 'Line', ['C10'])
+    K('ray%s_max' % dim, modr + ':%s.max' % rcls, [p('l', TR)], vt, 'Line', ['C10'])
+    K('seg%s_p2' % dim, modl + ':%s.p2' % scls, [p('l', TS)], vt, 'Line', ['C17', 'C02'])
+    K('seg%s_midpoint' % dim, modl + ':%s.midpoint' % scls, [p('l', TS)], vt, 'Line',
+      ['C17'])
+    K('seg%s_length' % dim, modl + ':%s.length' % scls, [p('l', TS)], 'S', 'Line',
+      ['C01', 'C17', 'C16'])
+    K('seg%s_point_at' % dim, modl + ':%s.point_at' % scls, [p('l', TS), S('t')], vt,
+      'Line', ['C17', 'C16'])
+    K('seg%s_point_at_length' % dim, modl + ':%s.point_at_length' % scls,
+      [p('l', TS), S('d')], vt, 'Line', ['C17'])
+    K('seg%s_flip' % dim, modl + ':%s.flip' % scls, [p('l', TS)], lr, 'Line', ['C02'])
+    K('seg%s_move' % dim, modl + ':%s.move' % scls, [p('l', TS), p('mv', TW)], lr, 'Line',
+      ['C02'])
+    K('seg%s_scale' % dim, modl + ':%s.scale' % scls,
+      [p('l', TS), S('factor', 'factor'), p('o', TP)], lr, 'Line', ['C02'])
+    K('seg%s_scale_world' % dim, modl + ':%s.scale' % scls,
+      [p('l', TS), S('factor', 'factor')], lr, 'Line', ['C02'])
+    K('seg%s_reflect' % dim, modl + ':%s.reflect' % scls,
+      [p('l', TS), p('n', TW, 'unit'), p('o', TP)], lr, 'Line', ['C02'])
+    K('ray%s_reverse' % dim, modr + ':%s.reverse' % rcls, [p('l', TR)], lr, 'Line', ['C02'])
+    K('ray%s_move' % dim, modr + ':%s.move' % rcls, [p('l', TR), p('mv', TW)], lr, 'Line',
+      ['C02'])
+    K('ray%s_scale' % dim, modr + ':%s.scale' % rcls,
+      [p('l', TR), S('factor', 'factor'), p('o', TP)], lr, 'Line', ['C02'])
+    K('ray%s_reflect' % dim, modr + ':%s.reflect' % rcls,
+      [p('l', TR), p('n', TW, 'unit'), p('o', TP)], lr, 'Line', ['C02'])
+    K('seg%s_distance_to_point' % dim, modl + ':%s.distance_to_point' % scls,
+      [p('l', TS), p('q', TP)], 'S', 'Line', ['C12'])
+K('seg2_rotate', 'geometry2d.line:LineSegment2D.rotate',
+  [p('l', SEG2), S('angle', 'angle'), p('o', P2)], 'LR2', 'Line', ['C02'])
+K('ray2_rotate', 'geometry2d.ray:Ray2D.rotate',
+  [p('l', RAY2), S('angle', 'angle'), p('o', P2)], 'LR2', 'Line', ['C02'])
+K('seg3_rotate', 'geometry3d.line:LineSegment3D.rotate',
+  [p('l', SEG3), p('axis', W3, 'nonzero'), S('angle', 'angle'), p('o', P3)], 'LR3', 'Line',
+  ['C02'])
+K('seg3_rotate_xy', 'geometry3d.line:LineSegment3D.rotate_xy',
+  [p('l', SEG3), S('angle', 'angle'), p('o', P3)], 'LR3', 'Line', ['C02'])
+K('ray3_rotate', 'geometry3d.ray:Ray3D.rotate',
+  [p('l', RAY3), p('axis', W3, 'nonzero'), S('angle', 'angle'), p('o', P3)], 'LR3', 'Line',
+  ['C02'])
+K('seg2_from_end_points', 'geometry2d.line:LineSegment2D.from_end_points',
+  [p('a', P2), p('b', P2)], 'LR2', 'Line', ['C17'])
+K('seg3_from_end_points', 'geometry3d.line:LineSegment3D.from_end_points',
+  [p('a', P3), p('b', P3)], 'LR3', 'Line', ['C17'])
+K('seg3_split_with_plane', 'geometry3d.line:LineSegment3D.split_with_plane',
+  [p('l', SEG3), p('pl', PL)], 'List LR3', 'Line', ['C17'])
+K('seg2_offset', 'geometry2d.line:LineSegment2D.offset', [p('l', SEG2), S('d')], 'LR2',
+  'Line', ['C19'])
+
+# ------------------------------------------------------------------ arcs
+ARC2 = 'geometry2d.arc:Arc2D.'
+ARC3 = 'geometry3d.arc:Arc3D.'
+K('arc2_init', ARC2 + '__init__', [p('c', P2), S('r', 'pos'), S('a1', 'arcangle'),
+                                    S('a2', 'arcangle')], 'Arc2S', 'Arc', ['C13'], ctor=True)
+K('arc2_p1', ARC2 + 'p1', [p('a', A2)], 'V2', 'Arc', ['C17', 'C10'])
+K('arc2_p2', ARC2 + 'p2', [p('a', A2)], 'V2', 'Arc', ['C17', 'C10'])
+K('arc2_midpoint', ARC2 + 'midpoint', [p('a', A2)], 'V2', 'Arc', ['C17'])
+K('arc2_angle', ARC2 + 'angle', [p('a', A2)], 'S', 'Arc', ['C17', 'C01'])
+K('arc2_length', ARC2 + 'length', [p('a', A2)], 'S', 'Arc', ['C17', 'C01'])
+K('arc2_is_circle', ARC2 + 'is_circle', [p('a', A2)], 'B', 'Arc', ['C17'])
+K('arc2_is_inverted', ARC2 + 'is_inverted', [p('a', A2)], 'B', 'Arc', ['C17'])
+K('arc2_min', ARC2 + 'min', [p('a', A2)], 'V2', 'Arc', ['C10'])
+K('arc2_max', ARC2 + 'max', [p('a', A2)], 'V2', 'Arc', ['C10'])
+K('arc2_angle_quadrant', ARC2 + '_angle_quadrant', [S('angle', 'arcangle')], 'N', 'Arc',
+  ['C10'])
+K('arc2_move', ARC2 + 'move', [p('a', A2), p('mv', W2)], 'Arc2S', 'Arc', ['C02'])
+K('arc2_rotate', ARC2 + 'rotate', [p('a', A2), S('angle', 'angle'), p('o', P2)], 'Arc2S',
+  'Arc', ['C02'], err_as_none=False)
+K('arc2_scale', ARC2 + 'scale', [p('a', A2), S('factor', 'posfactor'), p('o', P2)], 'Arc2S',
+  'Arc', ['C02'])
+K('arc2_point_at', ARC2 + 'point_at', [p('a', A2), S('t', 'unitinterval')], 'V2', 'Arc',
+  ['C17'])
+K('arc2_point_at_angle', ARC2 + 'point_at_angle', [p('a', A2), S('ang', 'arcangle')], 'V2',
+  'Arc', ['C17'])
+K('arc2_pt_in', ARC2 + '_pt_in', [p('a', A2), p('q', P2)], 'B', 'Arc', ['C11', 'C12'])
+K('arc2_a_from_pt', ARC2 + '_a_from_pt', [p('a', A2), p('q', P2)], 'S', 'Arc', ['C17'],
+  tol_factor=1000)
+K('arc2_cc_difference', ARC2 + '_cc_difference', [p('a', A2), S('ang', 'arcangle')], 'S',
+  'Arc', ['C17'])
+K('arc2_closest_point', ARC2 + 'closest_point', [p('a', A2), p('q', P2)], 'V2', 'Arc',
+  ['C12'], tol_factor=1000)
+for (kk, tt) in _kinds2:
+    K('intersect_line2d_arc2d_' + kk, 'intersection2d.intersect_line2d_arc2d',
+      [p('l', tt), p('a', A2)], 'PtList V2', 'Arc', ['C11'], tol_factor=1000)
+    K('intersect_line2d_infinite_arc2d_' + kk,
+      'intersection2d.intersect_line2d_infinite_arc2d',
+      [p('l', tt), p('a', A2)], 'PtList V2', 'Arc', ['C11'], tol_factor=1000)
+K('arc2_area', ARC2 + 'area', [p('a', A2)], 'Opt S', 'Arc', ['C01'], assert_mode='fork',
+  err_as_none=True)
+
+K('arc3_p1', ARC3 + 'p1', [p('a', A3)], 'V3', 'Arc', ['C17', 'C16'])
+K('arc3_p2', ARC3 + 'p2', [p('a', A3)], 'V3', 'Arc', ['C17', 'C16'])
+K('arc3_c', ARC3 + 'c', [p('a', A3)], 'V3', 'Arc', ['C17'])
+K('arc3_midpoint', ARC3 + 'midpoint', [p('a', A3)], 'V3', 'Arc', ['C17', 'C16'])
+K('arc3_length', ARC3 + 'length', [p('a', A3)], 'S', 'Arc', ['C17', 'C16', 'C01'])
+K('arc3_point_at', ARC3 + 'point_at', [p('a', A3), S('t', 'unitinterval')], 'V3', 'Arc',
+  ['C17', 'C16'])
+K('arc3_min', ARC3 + 'min', [p('a', A3)], 'V3', 'Arc', ['C10'])
+K('arc3_max', ARC3 + 'max', [p('a', A3)], 'V3', 'Arc', ['C10'])
+K('arc3_move', ARC3 + 'move', [p('a', A3), p('mv', W3)], 'Arc3S', 'Arc', ['C02'])
+K('arc3_scale', ARC3 + 'scale', [p('a', A3), S('factor', 'posfactor'), p('o', P3)], 'Arc3S',
+  'Arc', ['C02'])
+K('arc3_closest_point', ARC3 + 'closest_point', [p('a', A3), p('q', P3)], 'V3', 'Arc',
+  ['C12', 'C16'], tol_factor=1000)
+
+# ------------------------------------------------------------------ solids
+SP = 'geometry3d.sphere:Sphere.'
+CO = 'geometry3d.cone:Cone.'
+CY = 'geometry3d.cylinder:Cylinder.'
+for nm in ('min', 'max'):
+    K('sphere_' + nm, SP + nm, [p('s', SPH)], 'V3', 'Solid', ['C10'])
+    K('cone_' + nm, CO + nm, [p('s', CON)], 'V3', 'Solid', ['C10'])
+    K('cyl_' + nm, CY + nm, [p('s', CYL)], 'V3', 'Solid', ['C10'])
+for nm in ('area', 'volume', 'diameter', 'circumference'):
+    K('sphere_' + nm, SP + nm, [p('s', SPH)], 'S', 'Solid', ['C01'])
+for nm in ('height', 'radius', 'slant_height', 'area', 'volume'):
+    K('cone_' + nm, CO + nm, [p('s', CON)], 'S', 'Solid', ['C01'])
+for nm in ('height', 'diameter', 'area', 'volume'):
+    K('cyl_' + nm, CY + nm, [p('s', CYL)], 'S', 'Solid', ['C01'])
+K('cyl_center_end', CY + 'center_end', [p('s', CYL)], 'V3', 'Solid', ['C10'])
+for (pre, tgt, T, mt) in [('sphere', SP, SPH, 'SphereS'), ('cone', CO, CON, 'ConeS'),
+                          ('cyl', CY, CYL, 'CylS')]:
+    K(pre + '_move', tgt + 'move', [p('s', T), p('mv', W3)], mt, 'Solid', ['C02'])
+    K(pre + '_rotate', tgt + 'rotate',
+      [p('s', T), p('axis', W3, 'nonzero'), S('angle', 'angle'), p('o', P3)], mt, 'Solid',
+      ['C02'])
+    K(pre + '_rotate_xy', tgt + 'rotate_xy', [p('s', T), S('angle', 'angle'), p('o', P3)],
+      mt, 'Solid', ['C02'])
+    K(pre + '_reflect', tgt + 'reflect', [p('s', T), p('n', W3, 'unit'), p('o', P3)], mt,
+      'Solid', ['C02'])
+    K(pre + '_scale', tgt + 'scale', [p('s', T), S('factor', 'posfactor'), p('o', P3)], mt,
+      'Solid', ['C02'])
 
 
 def all_kernels():
